@@ -145,6 +145,15 @@ for isa, arch in (("x86", "zen1"), ("aarch64", "n1")):
     extra = set(got) - {f[0] for f in forms}
     if extra:
         R.fail("C20/import/ibench/invented", f"{isa}:ibench", f"entries not in the benchmark file were emitted: {sorted(extra)[:5]}")
+    # the TP and the LT line of a form need not be neighbours: all TP lines first, then all LT lines in another order
+    # ("the TP and LT lines of one ibench form are merged into one entry")
+    sep = [f for f in forms[:12] if f[4] in ("tp-lt", "lt-tp")]
+    lines = ["Using frequency 2.50GHz.", ""] + [f"{n_}-{'_'.join(o_)}-TP: {fmt(t_)} (clock cycles)    [DEBUG - result: 0.007813]" for n_, o_, t_, l_, _ in sep]
+    lines += [f"{n_}-{'_'.join(o_)}-LT:    {fmt(l_)} (clock cycles)    [DEBUG - result: 1.000000]" for n_, o_, t_, l_, _ in reversed(sep)]
+    got = run_import(arch, "ibench", "\n".join(lines) + "\n")
+    for name, ops, tpv, ltv, layout in sep:
+        R.case((isa, "ibench-separated", tuple(ops), fmt(tpv), fmt(ltv)), sample=dict(isa=isa, form=name, layout="TP block, then LT block"))
+        check_entry("ibench", got.get(name), name, ops, isa, ref_tp(fmt(tpv)), ref_lt(fmt(ltv)), dict(isa=isa, bench="ibench", ops=ops, tp=fmt(tpv), lt=fmt(ltv), layout="separated"))
     # ---------------- several forms of ONE mnemonic in one file (as real ibench output has them): a new mnemonic, and a
     # mnemonic the target model already knows; every imported form must be emitted
     pairs = [("x", "x"), ("y", "y"), ("x", "mb"), ("r", "r")] if isa == "x86" else [("d", "d"), ("s", "s"), ("x", "x"), ("q", "mb")]
